@@ -125,6 +125,9 @@ func c05afterUpdate(m *BGPUpdate, err error, opt *MarshallingOption) {
 		_ = n.NLRI.Len(opt)
 	}
 	_, _ = m.Serialize(opt)
+	// ... and validates it (recvMessageloop runs ValidateUpdateMsg on every UPDATE that does not reset
+	// the session, also after a discard / treat-as-withdraw class decode error)
+	_, _ = ValidateUpdateMsg(m, map[Family]BGPAddPathMode{RF_IPv4_UC: BGP_ADD_PATH_NONE, RF_IPv6_UC: BGP_ADD_PATH_NONE}, vBool("ebgp"), false, false)
 	if err == nil {
 		vReach("ok")
 	} else {
